@@ -33,6 +33,9 @@ def dispatch(prop: str):
     if prop == "C14":
         from .engines import mapping
         return mapping.check
+    if prop == "C13":
+        from .engines import values
+        return values.check
     raise SystemExit(f"no check registered for {prop}")
 
 
